@@ -88,6 +88,9 @@ COMPOUNDS = [
      [("C", 4), ("H", 3), ("D", 1), ("H[1]", 3), ("N", 2), ("O", 2)], "nat", 1.4),
     # an energy-dependent absorber: the only kind of atom whose imaginary SLD depends on the wavelength
     ("Gd(OH[1])3@5", "Gd(OH[1])3", [("Gd", 1), ("O", 3), ("H[1]", 3)], "iso", 5.0),
+    # tritium is an isotope like any other: only the atoms written H[1] are labile
+    ("T2O@1.21", "T2O", [("T", 2), ("O", 1)], "iso", 1.21),
+    ("C3H3T3H[1]2NO2@1.4n", "C3H3T3H[1]2NO2", [("C", 3), ("H", 3), ("T", 3), ("H[1]", 2), ("N", 1), ("O", 2)], "nat", 1.4),
 ]
 COMPOUNDS_THOROUGH = COMPOUNDS + [
     ("C2(H[1]2O)3@1.1", "C2(H[1]2O)3", [("C", 2), ("H[1]", 6), ("O", 3)], "iso", 1.1),
